@@ -39,8 +39,8 @@ def clean(ir):
     return out
 
 
-def hop(fmt: str, ir: dict, docstring_format: str = "rest", emit_default_doc: bool = True) -> dict:
-    """may raise whatever the real code raises"""
+def hop(fmt: str, ir: dict, docstring_format: str = "rest", emit_default_doc: bool = True, parse_default_doc=None) -> dict:
+    """may raise whatever the real code raises; `parse_default_doc` (docstring formats only): the parser's emit_default_doc when it differs from the emitter's"""
     import cdd
 
     to_code = _imports()
@@ -64,7 +64,7 @@ def hop(fmt: str, ir: dict, docstring_format: str = "rest", emit_default_doc: bo
     if fmt.startswith("docstring-"):
         style = fmt.split("-", 1)[1]
         s = cdd.docstring.emit.docstring(ir, docstring_format=style, emit_default_doc=emit_default_doc)
-        out = cdd.docstring.parse.docstring(s, emit_default_doc=emit_default_doc)
+        out = cdd.docstring.parse.docstring(s, emit_default_doc=emit_default_doc if parse_default_doc is None else parse_default_doc)
         out["name"] = name
         return out
     if fmt == "json_schema":
